@@ -249,6 +249,7 @@ class Interp:
             if cond: res.checks.append((cid, 'concrete-ok', None))
             else:
                 st, vals = self.solver.model(self.input_names())
+                if st == 'unsat': raise Infeasible()
                 self.violation(cid, 'check', vals if st == 'sat' else None, solver=st)
             return
         s = self.solver
@@ -258,6 +259,11 @@ class Interp:
             res.checks.append((cid, 'proved', None))
         elif r == 'sat':
             st, vals = s.model(self.input_names(), (neg,))
+            if st == 'unsat':
+                # the slice admits the negation but the full path condition does not: either the check holds on this path
+                # (negation infeasible) or the path itself is infeasible; decide which
+                if s.check() == 'unsat': raise Infeasible()
+                res.checks.append((cid, 'proved', None)); s.add(cond.s); return
             self.violation(cid, 'check', vals if st == 'sat' else None, solver=st)
         else:
             res.checks.append((cid, 'unknown', None))
